@@ -5,6 +5,7 @@
    pkgconf_tuple_parse (${name} substitution), pkgconf_argv_split, and the empty-argument
    filter of pkgconf_fragment_add. *)
 From BFG Require Import Base.Chars Shell.PosixQuote Misc.Versions.
+From Coq Require Import String.
 Local Open Scope N_scope.
 
 (* ---------------- W ---------------- *)
@@ -47,7 +48,7 @@ Definition write_frag_var (b : frag) : str :=
   end.
 
 Definition write_flag (shell : bool) (f : flag) : str :=
-  concat (map (if shell then write_frag_shell else write_frag_var) f).
+  List.concat (map (if shell then write_frag_shell else write_frag_var) f).
 
 Fixpoint join_with (d : str) (ws : list str) : str :=
   match ws with
@@ -163,9 +164,59 @@ Definition nonempty (s : str) : bool := match s with [] => false | _ => true end
 (* the arguments that become fragments: pkgconf_fragment_add ignores empty strings *)
 Definition pc_argv (s : str) : option (list str) := option_map (filter nonempty) (argv_go 0 false [] s).
 
-(* one field value as the fragment parser sees it *)
+(* pkgconf_fragment_add: an argument -Xdata that is not special becomes a typed fragment whose data, when it
+   starts with a slash, has runs of slashes collapsed (pkgconf_path_relocate); other arguments are kept verbatim
+   unless the previous fragment is an untyped unmergeable one (-isystem, -framework, ...), to which they are
+   appended after the same munging *)
+Fixpoint prefix_of (p s : str) : bool :=
+  match p, s with
+  | [], _ => true
+  | a :: p', b :: s' => N.eqb a b && prefix_of p' s'
+  | _ :: _, [] => false
+  end.
+
+Definition unmergeable_prefixes : list str :=
+  [STR "-framework"; STR "-isystem"; STR "-idirafter"; STR "-pthread"; STR "-Wa,"; STR "-Wl,"; STR "-Wp,";
+   STR "-trigraphs"; STR "-pedantic"; STR "-ansi"; STR "-std="; STR "-stdlib="; STR "-include"; STR "-nostdinc";
+   STR "-nostdlibinc"; STR "-nobuiltininc"].
+
+Definition unmergeable (s : str) : bool := existsb (fun p => prefix_of p s) unmergeable_prefixes.
+
+Definition is_special (s : str) : bool :=
+  match s with
+  | c :: _ => negb (N.eqb c c_dash) || prefix_of (STR "-lib:") s || unmergeable s
+  | [] => true
+  end.
+
+Fixpoint collapse (prev_slash : bool) (s : str) : str :=
+  match s with
+  | [] => []
+  | c :: r => if N.eqb c c_slash then (if prev_slash then collapse true r else c :: collapse true r)
+              else c :: collapse false r
+  end.
+
+Definition munge (s : str) : str :=
+  match s with
+  | c :: _ => if N.eqb c c_slash then collapse false s else s
+  | [] => s
+  end.
+
+Fixpoint pc_frags (after : bool) (args : list str) : list str :=
+  match args with
+  | [] => []
+  | a :: r =>
+      if Nat.ltb 1 (List.length a) && negb (is_special a) then
+        match a with
+        | d :: t :: data => (d :: t :: munge data) :: pc_frags false r
+        | _ => a :: pc_frags false r
+        end
+      else if after then munge a :: pc_frags true r
+      else a :: pc_frags (unmergeable a) r
+  end.
+
+(* one field value as the fragment list renders it *)
 Definition pc_field (vars : list (str * str)) (value : str) : option (list str) :=
-  pc_argv (pc_subst vars (pc_comment false value)).
+  option_map (pc_frags false) (pc_argv (pc_subst vars (pc_comment false value))).
 
 (* what a flag denotes: the concatenation of its bits, a rooted path is value(root)/suffix *)
 Definition frag_denote (vars : list (str * str)) (b : frag) : str :=
@@ -175,7 +226,7 @@ Definition frag_denote (vars : list (str * str)) (b : frag) : str :=
   | FPath None s => s
   | FPath (Some v) suffix => lookup vars v ++ path_tail suffix
   end.
-Definition flag_denote (vars : list (str * str)) (f : flag) : str := concat (map (frag_denote vars) f).
+Definition flag_denote (vars : list (str * str)) (f : flag) : str := List.concat (map (frag_denote vars) f).
 
 (* guard of the round trip on the written text: no comment character, no variable reference *)
 Fixpoint has_hash (s : str) : bool :=
